@@ -14,6 +14,7 @@ import (
 	"math/big"
 	mrand "math/rand"
 	"strings"
+	"sync"
 
 	"github.com/superfly/macaroon"
 	"github.com/superfly/macaroon/auth"
@@ -816,6 +817,72 @@ func famForge(r *Rng, o *Out, tier string) {
 		default:
 			o.emit("(const sound)", "sound")
 		}
+	}
+	// ... and whatever goroutines mint at the same moment: "independently" includes "concurrently". Goroutines
+	// released together mint tokens, fresh keys and third-party caveats; no random part, key, ticket or sealed
+	// verifier key may come out twice, and no mint may panic (a shared, unlocked buffer in front of the system
+	// generator does both)
+	{
+		rounds, workers, per := 400, 8, 16
+		if tier == "thorough" {
+			rounds = 4000
+		}
+		key, ka := r.Bytes(32), r.Bytes(32)
+		verdict := "sound"
+		seen := map[string]string{}
+		for round := 0; round < rounds && verdict == "sound"; round++ {
+			start := make(chan struct{})
+			outs := make([][]string, workers)
+			panicked := make([]bool, workers)
+			var wg sync.WaitGroup
+			for w := 0; w < workers; w++ {
+				wg.Add(1)
+				go func(w int) {
+					defer wg.Done()
+					defer func() {
+						if recover() != nil {
+							panicked[w] = true
+						}
+					}()
+					<-start
+					for i := 0; i < per; i++ {
+						t, err := macaroon.New([]byte("kid"), "loc", key)
+						if err != nil {
+							continue
+						}
+						outs[w] = append(outs[w], "n"+string(t.Nonce.Rnd))
+						if i%4 == 0 {
+							outs[w] = append(outs[w], "k"+string(macaroon.NewSigningKey()), "e"+string(macaroon.NewEncryptionKey()))
+							if t.Add3P(ka, "https://auth.example") == nil {
+								c3 := macaroon.GetCaveats[*macaroon.Caveat3P](&t.UnsafeCaveats)[0]
+								outs[w] = append(outs[w], "t"+string(c3.Ticket), "v"+string(c3.VerifierKey))
+							}
+						}
+					}
+				}(w)
+			}
+			close(start)
+			wg.Wait()
+			for w := 0; w < workers; w++ {
+				if panicked[w] {
+					verdict = "concurrent-mint-panicked"
+				}
+				for _, x := range outs[w] {
+					if _, dup := seen[x]; dup && verdict == "sound" {
+						switch x[0] {
+						case 'n':
+							verdict = "concurrent-mints-share-a-nonce"
+						case 'k', 'e':
+							verdict = "concurrent-mints-share-a-fresh-key"
+						default:
+							verdict = "concurrent-mints-share-a-seal"
+						}
+					}
+					seen[x] = ""
+				}
+			}
+		}
+		o.emit("(const sound)", verdict)
 	}
 }
 
@@ -2967,6 +3034,34 @@ func famAttenuate(r *Rng, o *Out, tier string) {
 					o.emit("(const sound)", "added-third-party-caveat-does-not-demand-its-discharge:"+co)
 				} else {
 					o.emit("(const sound)", "sound")
+				}
+				// ... and a candidate that merely NAMES the added caveat's ticket (anyone can mint one under a key of
+				// their own) is no discharge of it, wherever it stands among the genuine discharges of the earlier
+				// third-party caveats (per-caveat state of the verifier must not leak from one caveat to the next)
+				if cm, err := macaroon.Decode(hs[ci].bytes); err == nil {
+					c3s := macaroon.GetCaveats[*macaroon.Caveat3P](&cm.UnsafeCaveats)
+					if len(c3s) > 0 {
+						last := c3s[len(c3s)-1]
+						if junk, err := macaroon.New(last.Ticket, last.Location, r.Bytes(32)); err == nil {
+							jb, _ := junk.Encode()
+							for _, front := range []bool{false, true} {
+								var pres [][]byte
+								if front {
+									pres = append(append(pres, jb), nds[pi]...)
+								} else {
+									pres = append(append(pres, nds[pi]...), jb)
+								}
+								co := clearObs(key, hs[ci].bytes, pres, []macaroon.Access{acc})
+								o.emit(fmt.Sprintf("(clear %s %s %s (trust) (%s))", hx(key), hx(hs[ci].bytes), sxHexList(pres), sx), co)
+								o.count("thirdparty.demanded.junk-candidate." + co)
+								if co != "reject" {
+									o.emit("(const sound)", "a-junk-candidate-discharged-the-added-third-party-caveat:"+co)
+								} else {
+									o.emit("(const sound)", "sound")
+								}
+							}
+						}
+					}
 				}
 			}
 		}
